@@ -326,6 +326,15 @@ func stress(args []string) error {
 		go func(g int) {
 			defer wg.Done()
 			own := map[int]slog.Handler{}
+			// The contexts of this goroutine's calls (environment): Background,
+			// a live cancellable one, a cancelled one, an expired deadline.
+			live, cancelLive := context.WithCancel(ctx)
+			defer cancelLive()
+			dead, cancelDead := context.WithCancel(ctx)
+			cancelDead()
+			late, cancelLate := context.WithDeadline(ctx, time.Unix(1, 0))
+			defer cancelLate()
+			ctxs := [...]context.Context{ctx, live, dead, late}
 			get := func(id int) slog.Handler {
 				if id <= prebuilt {
 					return shared[id]
@@ -349,7 +358,7 @@ func stress(args []string) error {
 						} else {
 							rec = spec(st).build(nil)
 						}
-						herr = get(st.h).Handle(ctx, rec)
+						herr = get(st.h).Handle(ctxs[st.rid%len(ctxs)], rec)
 					})
 					switch {
 					case st.fault == faultPanic && panicked && pv == any(panicInjected):
